@@ -445,6 +445,21 @@ def query (st : ExState PK Sig) (tau expected : Nat) : Option (List (PK × List 
   let data := (get? st.store tau).getD []
   if data.length == expected then some data else none
 
+/-- what happens at one node's exchanger: its own `exchange(sigType, set)` stores the set
+(`StoreInternal`; the broadcast to the peers is the peers' `recv`), or a set arrives from a peer. -/
+inductive Ev (P PK Sig : Type) where
+  | own (tau : Nat) (set : List (PK × ParSig Sig))
+  | recv (sender : P) (tau : Nat) (set : List (PK × ParSig Sig))
+
+def exStep {P : Type} [DecidableEq P] (n : Nat) (peerMap : List (P × Nat)) (st : ExState PK Sig) :
+    Ev P PK Sig → ExState PK Sig
+  | .own tau set => storeExternal n st tau set
+  | .recv sender tau set => (recv n peerMap st sender tau set).1
+
+/-- the exchanger after any sequence of own exchanges and deliveries. -/
+def exRun {P : Type} [DecidableEq P] (n : Nat) (peerMap : List (P × Nat)) (evs : List (Ev P PK Sig)) : ExState PK Sig :=
+  evs.foldl (exStep n peerMap) {}
+
 end Exchanger
 
 end CharonV.DkgGlue
